@@ -100,14 +100,18 @@ func c10Equivalent(typ, a, b string) (same bool, detail string, err error) {
 	}
 	defer os.RemoveAll(dir)
 	grid := "for x := T(-70); x <= 70; x++ { for y := T(-70); y <= 70; y++ {"
-	if typ == "float64" {
+	tdecl := "type T = " + typ
+	if typ == "float64" || typ == "gsxFloat" {
 		grid = "for x := T(-6); x <= 6; x += 0.5 { for y := T(-6); y <= 6; y += 0.5 {"
+	}
+	if typ == "gsxFloat" {
+		tdecl = "type T float64"
 	}
 	src := fmt.Sprintf(`package main
 
 import "fmt"
 
-type T = %s
+%s
 
 func a(x, y T) bool { return %s }
 func b(x, y T) bool { return %s }
@@ -121,7 +125,7 @@ func main() {
 	}}
 	fmt.Println("SAME")
 }
-`, typ, a, b, grid)
+`, tdecl, a, b, grid)
 	file := filepath.Join(dir, "main.go")
 	os.WriteFile(file, []byte(src), 0o644)
 	cmd := exec.Command("go", "run", file)
@@ -149,15 +153,19 @@ func replayC10(rc *runCtx, h *harness, v *interp.Violation, file string) (bool, 
 	}
 	g := &c10Gen{m: model}
 	typ := "int"
-	if g.choose("operandType") == 1 {
+	decl := ""
+	switch g.choose("operandType") {
+	case 1:
 		typ = "float64"
+	case 2:
+		typ, decl = "gsxFloat", "type gsxFloat float64\n\n"
 	}
 	depth := 1
 	if d, ok := model["bound:depth"].(float64); ok {
 		depth = int(d)
 	}
 	expr := g.boolExpr(depth)
-	src := fmt.Sprintf("package cand\n\nfunc gsxF(x, y %s) bool {\n\treturn %s\n}\n", typ, expr)
+	src := fmt.Sprintf("package cand\n\n%sfunc gsxF(x, y %s) bool {\n\treturn %s\n}\n", decl, typ, expr)
 	res, err := runRealised("boolExprSimplify", nil, []string{src}, "")
 	if err != nil {
 		return false, err.Error()
